@@ -29,18 +29,18 @@ RULE = (
 )
 ASSUMPTIONS = [
     'refwire decoder and the expectation model in vlib/textgen.py are trusted (C01 uses the same pair)',
-    'API entry points: ValueError and IndexError leaving API.api_* are what every command handler turns into an error reply, they count as a clean refusal; any other exception type is a violation '
-    '(announce_route/announce_attributes answer it as "Unexpected error", the vpls / flow / ipv4 / ipv6 handlers do not catch it at all)',
+    'fits: a definition is expressible when every value is inside the field the RFC gives it and the NLRI (labels + rd + mask) is at most 255 bits; beyond a bound, with a malformed token, or without next-hop / label / rd for a family which needs them it is not, and must be refused',
+    'API entry points: ValueError and IndexError leaving API.api_* are what every command handler turns into an error reply, they count as a clean refusal; any other exception type is a violation (announce_route / announce_attributes answer it as "Unexpected error", the vpls / flow / ipv4 / ipv6 handlers do not catch it at all); through Configuration.parse_route_text / partial every exception is a violation',
     'API.api_route: validate_announce() is applied to the result as the announce command does, its error is a clean refusal',
-    'configuration file: a refusal must name the line where the offending statement starts or quote the statement; a message without either ("problem parsing configuration file line N" '
-    'with N = lines read so far) is an unlocated error',
-    'the line number of a located configuration error is compared with the file line only when the statement text is not quoted (the wording of messages is not demanded)',
-    'AS 0 (RFC 7607), an empty community list, duplicated / misplaced clauses and rate-limit above the documented clamp are classified, neither acceptance nor refusal is demanded',
-    'next-hop self for an IPv6 route on an IPv4 transport session is the documented refusal (TypeError out of resolve_self), classified',
+    'configuration file (written to disk, comment and blank line before the section in one case out of three): a refusal must quote the offending statement (or name its line when it quotes nothing); the catch-all of reload() ("problem parsing configuration file line <lines read so far>") is an unlocated error; when the same text offered directly raises, the violation carries the signature of that exception; a located refusal whose "line N" is not the file line of the quoted statement is the violation config:wrong-line-number (checked last)',
+    'signatures: parse:<form>:<keyword>:... names the clause which reproduces the failure beside the bare prefix + next-hop (found by re-parsing reduced texts); when that clause is the one the generator pushed over its bound the bound names the root cause (parse:<form>:<keyword>:<bound>:<exception type>), otherwise the innermost exabgp frame does',
+    'AS 0 (RFC 7607), an empty community list, duplicated / misplaced clauses, a stray ; { } in an API line and rate-limit above the documented clamp are classified: neither acceptance nor refusal is demanded, only no exception',
+    'the `<afi> <safi>` form: every keyword of its schema is counted as documented; path-information written as an integer is not (the schema says address): its refusal is classified',
+    'next-hop self for an IPv6 route on an IPv4 transport session is the documented refusal (TypeError out of resolve_self), classified; an IPv6 next hop for IPv4 NLRI (RFC 8950) is left to C01',
     'LOCAL_PREF given explicitly on eBGP: presence is not compared; order inside community attributes is not compared; adjacent AS_SEQUENCE segments read as one',
-    'vpls / flow: only "no unhandled exception" and "accepted definitions encode without raising" (plus the VPLS NLRI fields as written); acceptance of RFC-valid values is not demanded there '
-    '(label base above 65535 is refused today: classified)',
-    'VERIF_C18_KNOWN (comma separated fnmatch patterns) mutes diagnosed signatures while developing; registered runs never set it',
+    'the only permitted "no message" is an attribute set above 4096 octets on a session without extended message',
+    'vpls / flow: only "no unhandled exception", "a definition which cannot be expressed is not accepted" and "accepted definitions encode without raising" (plus the VPLS NLRI fields as written); acceptance of RFC-valid values is not demanded there (a label base above 65535 is refused today: classified refused-valid:base>65535); FlowSpec semantics are C16\'s',
+    'VERIF_C18_KNOWN (comma separated fnmatch patterns, `python -m vlib.c18_findings patterns`) turns diagnosed signatures into classes tolerated:<signature> while developing; registered runs never set it',
 ]
 
 FAMS = [(1, 1), (1, 2), (1, 4), (1, 128), (2, 1), (2, 4), (2, 128)]
@@ -126,6 +126,11 @@ def parsers() -> tuple:
         reactor.configuration = conf  # type: ignore[attr-defined]
         _STATE['conf'] = conf
         _STATE['api'] = API(reactor)  # type: ignore[arg-type]
+    # what a command leaves behind must not decide the next case: Tokeniser.clear() keeps the AFI of the last prefix
+    from exabgp.protocol.family import AFI
+
+    _STATE['conf'].parser.tokeniser.afi = AFI.undefined
+    _STATE['api'].configuration.parser.tokeniser.afi = AFI.undefined
     return _STATE['conf'], _STATE['api']
 
 
@@ -147,7 +152,7 @@ class Outcome:
         self.line_ok = True
         self.lines: tuple = ()
 
-    def same_failure(self, other: 'Outcome') -> bool:
+    def same_failure(self, other: Outcome) -> bool:
         if self.kind != other.kind:
             return False
         if self.kind == 'exception':
@@ -192,7 +197,7 @@ def load_configuration(text: str, statement_lines: dict) -> Outcome:
         return Outcome('routes', routes)
     error = str(conf.error)
     if not error.strip():
-        return Outcome('unlocated', reason='reload() returned %r with an empty error' % (ok,), how='config')
+        return Outcome('unlocated', reason=f'reload() returned {ok!r} with an empty error', how='config')
     flat = ' '.join(error.split())
     # the statement under test may hold several statements once a stray ; { } got into it: any of them quoted will do
     quoted_at = []
@@ -212,8 +217,9 @@ def load_configuration(text: str, statement_lines: dict) -> Outcome:
         out.line_ok = number in quoted_at
         out.lines = (number, quoted_at)
         return out
-    if number in statement_lines:
+    if number in statement_lines and 'problem parsing configuration file' not in error:
         return Outcome('refused', reason=flat, how='config-line')
+    # (the catch-all of reload() names the number of lines read so far, which is no location)
     return Outcome('unlocated', reason=flat, how='config')
 
 
@@ -577,11 +583,9 @@ def _check_route(case: dict) -> dict:
     sig = f'wire:{form}'
     if len(routes) != len(prefixes):
         raise violation(f'{sig}:route-count', f'{len(routes)} routes for {len(prefixes)} prefixes: "{shown}"')
-    empty_small = 0
+    empty_small = compared = 0
     for ri, route in enumerate(routes):
         one = dict(rec, prefix=prefixes[ri])
-        if form == 'attributes' and 'path_id' not in rec:
-            one = dict(one)
         for si, (sess, _, _) in enumerate(sessions()):
             if si not in results.get(ri, {}):
                 continue
@@ -592,9 +596,10 @@ def _check_route(case: dict) -> dict:
                     continue
                 raise violation(f'{sig}:no-message', f'nothing is sent for "{shown}" on {sess}')
             compare_wire(one, text, sess, msgs, sig)
-    if case['huge']:
+            compared += 1
+    if case['huge'] and compared:
         classes.append('huge:no-room-in-4096' if empty_small else 'huge:sent-in-4096')
-    return {'nontrivial': nontrivial, 'classes': classes + ['values-as-written'], 'sample': {'text': shown, 'entry': entry}}
+    return {'nontrivial': nontrivial, 'classes': classes + (['values-as-written'] if compared else []), 'sample': {'text': shown, 'entry': entry}}
 
 
 # ---------------------------------------------------------------------------- vpls-text
@@ -849,7 +854,7 @@ def fixed_flow() -> list:
 
 
 ENGINES = [
-    Engine('route-text', gen.route_cases, _tagged('route', check_route), quick=900, thorough=40000, batch=300, fixed_cases=fixed_routes),
+    Engine('route-text', gen.route_cases, _tagged('route', check_route), quick=900, thorough=30000, batch=300, fixed_cases=fixed_routes),
     Engine('vpls-text', gen.vpls_cases, _tagged('vpls', check_vpls), quick=250, thorough=6000, batch=125, fixed_cases=fixed_vpls),
     Engine('flow-text', gen.flow_cases, _tagged('flow', check_flow), quick=250, thorough=6000, batch=125, fixed_cases=fixed_flow),
 ]
